@@ -7,7 +7,7 @@ package balance
 
 /*@
 module core
-props C01 C02 C09
+props C01 C02 C05 C09
 use common core
 dialect neovm
 
@@ -51,7 +51,7 @@ func (t Token) transfer(ctx, from, to, amount, innerRing, details) (ok)
                || (innerRing && (len(from) == 0 || old(bal(store, from)) >= amount)))
   ensures [C01,C02] !ok ==> store == old(store) && notifs == old(notifs)
   ensures [C01] ok ==> notifs == old(notifs) ++ [Transfer(from, to, amount), TransferX(from, to, amount, details)]
-  ensures [C01] ok ==> forall a Bytes {store.opt(akey(a))} :: len(a) == 20 ==>
+  ensures [C01,C05] ok ==> forall a Bytes {store.opt(akey(a))} :: len(a) == 20 ==>
             bal(store, a) == old(bal(store, a)) - (a == from ? amount : 0) + (a == to ? amount : 0)
   ensures [C01] NonNeg(store)
   ensures [C01] SumBal(store) == old(SumBal(store)) - (ok && len(from) == 20 ? amount : 0) + (ok && len(to) == 20 ? amount : 0)
